@@ -58,6 +58,11 @@ chk('C11', 'exploration',
     'Totality: every derivation within 2 (quick) / 3 (thorough) deviations, every single-site ill-typed atom mutant of every derivation within 1 deviation and all 8192 include graphs over {main, a, b} x {a, b, itself, missing} x {root level, inside a subroutine} are linted twice under a fuel budget (no panic, no non-termination, identical diagnostics). Determinism: every range-over-map loop of linter and linter/context is rewritten at build time (go/types) to iterate through a seam; for 20 programs with 2-3 entities per map and cyclic call graphs every permutation at every dynamic loop execution with at most 2 executions deviating from natural order is explored and must give the identical diagnostic multiset incl. locations. All 24 declaration orders of 6 programs give the same diagnostics apart from locations.',
     'Trusts: instrumenter (fuel, map-order seam) - falco\'s own tests pass through the overlay; lintx driver with an in-memory resolver.')
 
+chk('C17', 'model_checking',
+    'explicit-state exploration of the real header objects: all operation histories up to a depth, invariants on every transition, differential spelling twin',
+    'Every history of up to 3 operations on req and 2 on bereq/beresp/obj/resp (quick; thorough: 3 everywhere, 4 on req) over 42 operations (set with empty / not-set / multi-line / sub-field-carrying values, set and unset of sub-fields, add, unset, on the names Foo, fOO, Bar) is executed on a fresh interpreter through the real statement path with a full read snapshot after every step. Invariants on every transition: read-after-set, not-set-after-unset for every spelling, frame conditions for every other header and every other sub-field; on every final state the history with Foo/fOO swapped must give the same reads. States (distinct read vectors), transitions and traces are counted by the run; every explored trace is an implementation trace.',
+    'Trusts: the observation through VCL log/if reads; histories are not pruned by state, so no abstraction can hide a future.')
+
 NOT_YET = {i: 'check not built yet in this session (design in DESIGN.md §4); will be claimed once its command exists' for i in ids if i not in CHECKS}
 
 m = {
